@@ -11,7 +11,6 @@ import (
 	"encoding/json"
 	"fmt"
 	"math"
-	"path/filepath"
 	"strconv"
 	"strings"
 	"time"
@@ -325,18 +324,42 @@ func (r *encRun) jsonMembers(keys []string, vals []*encJV, path []int) []map[str
 
 var encReserved = map[string]bool{"time": true, "logger": true, "level": true, "msg": true, "caller": true}
 
-func encCallerOK(site encSite, file string, line int, fn string) bool {
+// encSafetyFiles: what the library's documented path hardening (slog.Safety, evaluated under the
+// flags the record was formatted with) makes of the file the runtime reports for the call site.
+// The hardening walks a Go map; should two of its entries apply to one path the outcome depends on
+// the iteration order (C18's business) - every outcome seen in a few evaluations is accepted.
+func encSafetyFiles(file string) []string {
+	out := []string{slog.Safety(file)}
+	for i := 0; i < 6; i++ {
+		f := slog.Safety(file)
+		dup := false
+		for _, x := range out {
+			dup = dup || x == f
+		}
+		if !dup {
+			out = append(out, f)
+		}
+	}
+	return out
+}
+
+// encCallerOK: (line and function are those of the call site, the file is EXACTLY the hardened file
+// of the call site).
+func encCallerOK(site encSite, file string, line int, fn string) (bool, bool) {
 	lineOK := line == site.line
 	if site.lineHi > 0 { // the call sits somewhere inside a function whose first / last line are known
 		lineOK = line >= site.line && line <= site.lineHi
 	}
-	return lineOK && filepath.Base(file) == filepath.Base(site.file) &&
-		fn != "" && strings.HasSuffix(site.fn, fn[strings.LastIndex(fn, "/")+1:])
+	fileOK := false
+	for _, f := range encSafetyFiles(site.file) {
+		fileOK = fileOK || f == file
+	}
+	return lineOK && fn != "" && strings.HasSuffix(site.fn, fn[strings.LastIndex(fn, "/")+1:]), fileOK
 }
 
 func encObsJSON(r *encRun, payload []byte, site encSite) map[string]any {
 	o := map[string]any{"nl": bytes.Count(payload, []byte("\n")), "endnl": bytes.HasSuffix(payload, []byte("\n")),
-		"valid": false, "top": []string{}, "msgrt": false, "namert": false, "lvl": false, "callerok": false,
+		"valid": false, "top": []string{}, "msgrt": false, "namert": false, "lvl": false, "callerok": false, "cfilert": false,
 		"members": []map[string]any{}}
 	body := bytes.TrimSuffix(payload, []byte("\n"))
 	dec := json.NewDecoder(bytes.NewReader(body))
@@ -394,7 +417,7 @@ func encObsJSON(r *encRun, payload []byte, site encSite) map[string]any {
 						line, _ = strconv.Atoi(v.vals[j].s)
 					}
 				}
-				o["callerok"] = encCallerOK(site, file, line, fn)
+				o["callerok"], o["cfilert"] = encCallerOK(site, file, line, fn)
 			}
 		}
 	}
@@ -566,7 +589,7 @@ func (r *encRun) tokPairs(ps []encPair) []map[string]any {
 func encObsLogfmt(r *encRun, payload []byte, site encSite) map[string]any {
 	o := map[string]any{"nl": bytes.Count(payload, []byte("\n")), "endnl": bytes.HasSuffix(payload, []byte("\n")),
 		"valid": false, "head": []string{}, "tail": []string{}, "headq": false, "msgrt": false, "namert": false,
-		"lvl": false, "callerok": false, "pairs": []map[string]any{}}
+		"lvl": false, "callerok": false, "cfilert": false, "pairs": []map[string]any{}}
 	line := string(payload)
 	if i := strings.IndexByte(line, '\n'); i >= 0 {
 		line = line[:i] // the record proper; anything after it is judged by nl
@@ -617,7 +640,7 @@ func encObsLogfmt(r *encRun, payload []byte, site encSite) map[string]any {
 			ln, _ = strconv.Atoi(p.tok.text)
 		}
 	}
-	o["callerok"] = encCallerOK(site, file, ln, fn)
+	o["callerok"], o["cfilert"] = encCallerOK(site, file, ln, fn)
 	o["head"], o["tail"], o["headq"] = head, tail, headq
 	o["pairs"] = r.tokPairs(ps[i:j])
 	return o
